@@ -2,6 +2,7 @@ package rcall
 
 import (
 	"github.com/modernizing/coca/pkg/domain/core_domain"
+	"strings"
 )
 
 type RCallGraph struct {
@@ -66,6 +67,10 @@ func BuildMethodCallMap(dataStructs []core_domain.CodeDataStruct, projectMaps ma
 	return methodCallMap
 }
 
+func escapeStr(name string) string {
+	return strings.ReplaceAll(name, "\"", "\\\"")
+}
+
 var loopCount = 0
 var lastChild = ""
 var loopDepth = 6
@@ -89,7 +94,7 @@ func (c RCallGraph) BuildRCallChain(funcName string, methodMap map[string][]stri
 			if funcName == child {
 				continue
 			}
-			newCall := "\"" + child + "\" -> \"" + funcName + "\";\n"
+			newCall := "\"" + escapeStr(child) + "\" -> \"" + escapeStr(funcName) + "\";\n"
 			arrayResult = arrayResult + newCall
 		}
 
